@@ -85,7 +85,24 @@ type Scn struct {
 
 var pool = lib.DefaultPool
 
-func pk(name string) lib.KeyPair { return lib.GetKeyPair(name) }
+// pk: a key of the pool by name.  Key ids are labels: "UP:<name>" is the same key labelled with its id in UPPER-CASE hex,
+// "ALIAS:<a>:<b>" is key <b> labelled with an id that shares its first 8 characters with the id of key <a>.
+func pk(name string) lib.KeyPair {
+	if strings.HasPrefix(name, "UP:") {
+		kp := lib.GetKeyPair(name[3:])
+		kp.Pub.KeyID = strings.ToUpper(kp.Pub.KeyID)
+		kp.Priv.KeyID = kp.Pub.KeyID
+		return kp
+	}
+	if strings.HasPrefix(name, "ALIAS:") {
+		ab := strings.SplitN(name[6:], ":", 2)
+		a, kp := lib.GetKeyPair(ab[0]), lib.GetKeyPair(ab[1])
+		kp.Pub.KeyID = a.Pub.KeyID[:8] + kp.Pub.KeyID[8:]
+		kp.Priv.KeyID = kp.Pub.KeyID
+		return kp
+	}
+	return lib.GetKeyPair(name)
+}
 
 func sha(s string) string { h := sha256.Sum256([]byte(s)); return hex.EncodeToString(h[:]) }
 
@@ -290,6 +307,10 @@ func buildLayout(sc *Scn, runDirPrefix string) intoto.Layout {
 			}
 			x.ExpectedMaterials = [][]string{mm, {"DISALLOW", pre + "stamp.txt"}, {"ALLOW", "*"}}
 			x.ExpectedProducts = [][]string{mm, {"DISALLOW", pre + "stamp.txt"}, {"ALLOW", "*"}}
+		}
+		if sc.Defect == "star-class-pattern-product-added" {
+			x.ExpectedMaterials = [][]string{m, {"DISALLOW", pre + "*.py[co]"}, {"ALLOW", "*"}}
+			x.ExpectedProducts = [][]string{m, {"DISALLOW", pre + "*.py[co]"}, {"ALLOW", "*"}}
 		}
 		if sc.InspPermissive {
 			x.ExpectedMaterials = [][]string{{"ALLOW", "*"}}
@@ -544,8 +565,15 @@ func pickSubset(r *lib.Rng, from []string, min, max int) []string {
 
 func baseScenario(r *lib.Rng, focus string, level int) *Scn {
 	sc := &Scn{Focus: focus, Level: level, Expires: future(), Expect: "accept"}
-	if tz := os.Getenv("TZ"); tz != "" && level == 0 {
-		sc.Env = map[string]string{"TZ": tz}
+	if level == 0 {
+		for _, k := range []string{"TZ", "SOURCE_DATE_EPOCH", "FAKETIME"} {
+			if v := os.Getenv(k); v != "" {
+				if sc.Env == nil {
+					sc.Env = map[string]string{}
+				}
+				sc.Env[k] = v
+			}
+		}
 	}
 	sc.Wrapper = []string{"legacy", "dsse"}[r.Intn(2)]
 	sc.Entry = "plain"
@@ -592,11 +620,14 @@ var defects = map[string][]string{
 	"c01": {"none", "none", "alter-expires", "alter-readme", "alter-threshold", "alter-rule", "alter-command", "alter-insp-run", "alter-keys",
 		"alter-pubkeys", "drop-signature", "corrupt-signature", "dup-signature", "reorder-signatures", "forged-keyid", "extra-foreign-signature",
 		"verifier-plus-one", "verifier-minus-one", "verifier-empty", "signed-by-others", "link-instead-of-layout",
+		"alter-step-unknown-member", "alter-step-drop-threshold", "alter-inspection-unknown-member", "alter-key-unknown-member",
+		"alter-dsse-payload-type-case", "alter-dsse-payload-type-params",
 		"ca-root-unparsable", "ca-root-public-key-only", "ca-intermediate-unparsable", "ca-root-valid-unused",
 		"dup-signature-missing-key", "keyid-collision-history",
 		"case-variant-member-evil-first-dsse", "case-variant-member-evil-last-dsse", "case-variant-member-evil-first-legacy", "case-variant-member-evil-last-legacy",
 		"verifier-key-malformed-legacy", "verifier-key-malformed-dsse", "alter-payload-strip-sig-padding", "verifier-key-cert-only-forged"},
-	"c05": {"required-link-missing", "required-link-unreadable", "none", "disagree-product-digest", "disagree-product-path", "disagree-material-digest", "disagree-algorithm", "disagree-algorithm-material",
+	"c05": {"disagree-extra-product-0", "disagree-extra-product-1", "extra-disagreeing-link-uppercase-keyid", "extra-agreeing-link-uppercase-keyid",
+		"required-link-missing", "required-link-unreadable", "none", "disagree-product-digest", "disagree-product-path", "disagree-material-digest", "disagree-algorithm", "disagree-algorithm-material",
 		"junk-uncounted-badsig", "junk-uncounted-unauthorised", "extra-agreeing-link", "byproducts-differ",
 		"threshold1-disagree-product-digest", "threshold1-disagree-algorithm", "threshold1-agree",
 		"permissive-disagree-algorithm", "permissive-disagree-algorithm-material", "permissive-disagree-product-digest", "permissive-none",
@@ -607,8 +638,8 @@ var defects = map[string][]string{
 	"c06": {"sub-expired", "sub-undated", "sub-rfc3339-offset", "none", "expired-long", "expired-2s", "future-1h", "garbage", "empty", "rfc3339-offset", "date-only", "year-9999", "fraction", "lowercase"},
 	"c08": {"sub-same-step-name-upper-link-missing", "sub-same-step-name-both-present", "sub-wide-9", "sub-defective-beside-good-link-large", "sub-insp-named-like-first-step", "sub-insp-named-like-last-step", "sub-defective-beside-good-link", "sub-ok", "sub-ok", "sub-badsig", "sub-expired", "sub-missing-link", "sub-rule-violation", "sub-unauthorised", "sub-nested", "sub-nested-defect", "sub-summary-mismatch", "sub-summary-mismatch-other-algorithm"},
 	"c10": {"history-same-params", "history-diff-params", "history-no-params", "history-mixed", "mixed-cert-key", "mixed-cert-key", "mixed-cert-key-unsorted", "summary-byproducts", "direct-unclean",
-		"history-empty-command-argument", "history-dir-relative-inspection-fails-midway", "history-multi-alg", "history-multi-alg-mismatch", "history-whitespace-rule", "history-param-value-has-marker", "mixed-cert-key-marker-constraint", "history-threshold-zero"},
-	"c09": {"step-rule-fails-no-inspection-may-run", "symlinked-dir-before-tampered-product", "symlinked-dir-untouched", "product-crlf-rewritten", "product-crlf-rewritten-normalised", "large-product-tampered-tail", "large-product-untouched", "product-added-ignorable-name-0", "product-added-ignorable-name-1", "product-added-ignorable-name-2", "product-added-ignorable-name-3",
+		"history-empty-command-argument", "history-dir-relative-inspection-fails-midway", "mixed-cert-key-dir", "history-layout-keys-share-short-id", "history-multi-alg", "history-multi-alg-mismatch", "history-whitespace-rule", "history-param-value-has-marker", "mixed-cert-key-marker-constraint", "history-threshold-zero"},
+	"c09": {"star-class-pattern-product-added", "dangling-symlink-added", "step-rule-fails-no-inspection-may-run", "symlinked-dir-before-tampered-product", "symlinked-dir-untouched", "product-crlf-rewritten", "product-crlf-rewritten-normalised", "large-product-tampered-tail", "large-product-untouched", "product-added-ignorable-name-0", "product-added-ignorable-name-1", "product-added-ignorable-name-2", "product-added-ignorable-name-3",
 		"product-added-ignorable-name-4", "product-added-ignorable-name-5", "product-added-ignorable-name-6", "product-added-ignorable-name-7",
 		"product-added-ignorable-name-8", "product-added-ignorable-name-9", "product-added-ignorable-name-10", "case-variant-rule-earlier", "product-modified-backslash-decoy", "sha512-chain-product-modified", "escaped-pattern-product-modified", "escaped-pattern-none", "insp-rewrite-same-mtime", "product-all-removed", "require-after-consume", "none", "insp-fail", "insp-fail-255", "insp-missing", "insp-empty", "product-modified", "product-added", "product-removed",
 		"insp-touch-allowed", "insp-touch-disallowed", "three-inspections", "second-fails"},
@@ -626,6 +657,9 @@ func genScenario(r *lib.Rng, focus string, idx int) *Scn {
 	sc.Klass = focus + "/" + d
 	if tz := os.Getenv("TZ"); tz != "" {
 		sc.Klass = focus + "/tz=" + tz + "/" + d
+	}
+	if os.Getenv("SOURCE_DATE_EPOCH") != "" {
+		sc.Klass = focus + "/source-date-epoch/" + d
 	}
 	needTwo := func(i int) {
 		st := &sc.Steps[i]
@@ -649,6 +683,13 @@ func genScenario(r *lib.Rng, focus string, idx int) *Scn {
 				sc.Owners = pool[:2]
 				sc.Verifiers = pool[:2]
 			}
+		case "alter-dsse-payload-type-case", "alter-dsse-payload-type-params":
+			sc.Wrapper = "dsse"
+			sc.Expect = "reject"
+		case "alter-step-drop-threshold":
+			// the member "threshold": 1 of the first step is deleted from the file after signing
+			sc.Steps[0].Threshold = 1
+			sc.Expect = "reject"
 		case "verifier-minus-one":
 			if len(sc.Owners) < 2 {
 				sc.Owners = []string{pool[0], pool[3]}
@@ -739,8 +780,21 @@ func genScenario(r *lib.Rng, focus string, idx int) *Scn {
 			st.Signers = append([]string{}, st.Keys[:3]...)
 			sc.DefectArg = strconv.Itoa(i) + ":" + d[len(d)-1:]
 		}
-		if strings.Contains(d, "threshold1-foreign-signature-entry-") {
+		if strings.Contains(d, "threshold1-foreign-signature-entry-") || strings.HasPrefix(d, "disagree-extra-product-") {
 			sc.DefectArg = strconv.Itoa(i) + ":" + d[len(d)-1:]
+		}
+		if strings.HasSuffix(d, "-link-uppercase-keyid") {
+			// a third authorised functionary whose key id is written in UPPER-CASE hex (ids are labels; the layout, the
+			// signature entry and the file name all use that spelling): his link is evidence like any other
+			st := &sc.Steps[i]
+			for _, p := range pool {
+				if !contains(st.Keys, p) {
+					st.Keys = append(st.Keys, "UP:"+p)
+					st.Signers = append(st.Signers, "UP:"+p)
+					break
+				}
+			}
+			sc.DefectArg = strconv.Itoa(i) + ":2"
 		}
 		if strings.HasPrefix(d, "permissive-") {
 			// no rule looks at hashes: the verdict depends on the agreement of the counted links alone
@@ -796,7 +850,7 @@ func genScenario(r *lib.Rng, focus string, idx int) *Scn {
 			}
 		}
 		switch d {
-		case "none", "junk-uncounted-badsig", "junk-uncounted-unauthorised", "extra-agreeing-link", "byproducts-differ", "threshold1-agree", "permissive-none",
+		case "none", "junk-uncounted-badsig", "junk-uncounted-unauthorised", "extra-agreeing-link", "byproducts-differ", "threshold1-agree", "permissive-none", "extra-agreeing-link-uppercase-keyid",
 			"insp-named-like-last-step", "insp-named-like-first-step", "permissive-unclean-paths",
 			"permissive-sub-beside-link-agree", "permissive-twin-sublayouts-agree":
 		default:
@@ -1018,8 +1072,12 @@ func genScenario(r *lib.Rng, focus string, idx int) *Scn {
 		case "history-mixed":
 			sc.Params = good
 			sc.History = []map[string]string{bad, good, {"OUT": "out", "SRC": "src", "bad name": "x"}, good}
-		case "mixed-cert-key", "mixed-cert-key-unsorted", "mixed-cert-key-marker-constraint":
+		case "mixed-cert-key", "mixed-cert-key-unsorted", "mixed-cert-key-marker-constraint", "mixed-cert-key-dir":
 			sc.CertUnsorted = d == "mixed-cert-key-unsorted"
+			if d == "mixed-cert-key-dir" {
+				// the same through the entry point with a run directory (certificate pools are built there separately)
+				sc.Entry = "dir"
+			}
 			if d == "mixed-cert-key-marker-constraint" {
 				// a second certificate constraint whose values LOOK like markers: constraints are not subject to
 				// substitution, and nothing of the caller's layout may change
@@ -1047,6 +1105,29 @@ func genScenario(r *lib.Rng, focus string, idx int) *Scn {
 			sc.History = []map[string]string{ps, ps}
 			sc.Reps = 24
 			sc.Insps, sc.ExpectLog = nil, nil
+		case "history-layout-keys-share-short-id":
+			// two keys of the layout share the 8 characters that name link files; only one of them delivers a link.
+			// The link belongs to the key whose full id its signature entry carries - every time, whatever order a map is walked in
+			sc.Params = nil
+			a := sc.Steps[0].Signers[0]
+			var b string
+			for _, p := range pool {
+				if p != a && kindSame(p, a) {
+					b = p
+					break
+				}
+			}
+			if b == "" {
+				b = pool[0]
+				if b == a {
+					b = pool[1]
+				}
+			}
+			sc.Steps[0].Keys = []string{a, "ALIAS:" + a + ":" + b}
+			sc.Steps[0].Signers = []string{a}
+			sc.Steps[0].Threshold = 1
+			sc.Reps = 40
+			sc.History = []map[string]string{nil, nil}
 		case "history-empty-command-argument":
 			// the expected command of every step carries empty arguments (legal): comparing it with the recorded command
 			// must not rewrite the caller's layout
@@ -1106,6 +1187,17 @@ func genScenario(r *lib.Rng, focus string, idx int) *Scn {
 			if d == "symlinked-dir-before-tampered-product" {
 				sc.Expect = "reject"
 			}
+		case "star-class-pattern-product-added":
+			// the inspection forbids byte-code files with a pattern in which a star is followed by a character class
+			sc.Insps = []InspSpec{{Name: "insp0", Kind: "log"}}
+			sc.ExtraFinal = map[string]string{"evil.pyc": "not reported by any step\n"}
+			sc.Expect = "reject"
+		case "dangling-symlink-added":
+			// a symbolic link whose target does not exist was added to the final product: it cannot be recorded, so the
+			// inspection (and with it the verification) fails - it must not be skipped silently
+			sc.Insps = []InspSpec{{Name: "insp0", Kind: "log"}}
+			sc.Entry = "plain"
+			sc.Expect = "reject"
 		case "insp-fail":
 			sc.Insps = []InspSpec{{Name: "insp0", Kind: "fail", Arg: "1"}}
 			sc.Expect = "reject"
@@ -1238,6 +1330,8 @@ type world struct {
 	verifierKeys                        map[string]intoto.Key
 	final                               map[string]string
 	runDirArg                           string
+	unreadable                          []string // entries of the run directory that cannot be recorded (dangling symbolic links)
+	loadErr                             error // the altered layout file is refused by the loader (a legitimate way of rejecting it)
 	expMat, expProd                     map[string]intoto.HashObj // generator ground truth: first-step materials, last-step products
 	extraKeys                           []lib.KeyPair             // key objects in use whose id is not derived from their material
 }
@@ -1291,6 +1385,10 @@ func materialise(sc *Scn, root string, r *lib.Rng) *world {
 	applyLayoutDefects(sc, w, r)
 	lm, err := intoto.LoadMetadata(w.layoutPath)
 	if err != nil {
+		if loadMayFail[sc.Defect] {
+			w.loadErr = err
+			return w
+		}
 		panic(fmt.Sprintf("layout not loadable after defect %s: %v", sc.Defect, err))
 	}
 	w.layoutMeta = lm
@@ -1346,6 +1444,10 @@ func materialise(sc *Scn, root string, r *lib.Rng) *world {
 		os.WriteFile(fp, []byte(c), 0o644)
 		os.Chtimes(fp, time.Unix(1577836800, 0), time.Unix(1577836800, 0)) // fixed mtime (as reproducible builds do)
 	}
+	if sc.Defect == "dangling-symlink-added" {
+		must(os.Symlink(filepath.Join(root, "no-such-target.so"), filepath.Join(w.prodDir, "plugin.so")))
+		w.unreadable = append(w.unreadable, "plugin.so")
+	}
 	if strings.HasPrefix(sc.Defect, "symlinked-dir-") {
 		target := filepath.Join(root, "assets-target")
 		os.MkdirAll(target, 0o755)
@@ -1355,6 +1457,11 @@ func materialise(sc *Scn, root string, r *lib.Rng) *world {
 	w.final = final
 	return w
 }
+
+// alterations of the layout FILE that the strict loader may refuse outright: refusing the file is one way of not
+// enforcing it; if it loads, verification must reject it like any other alteration of signed content
+var loadMayFail = map[string]bool{"alter-step-unknown-member": true, "alter-step-drop-threshold": true, "alter-inspection-unknown-member": true,
+	"alter-key-unknown-member": true, "alter-dsse-payload-type-case": true, "alter-dsse-payload-type-params": true}
 
 func stepIndex(sc *Scn) int { i, _ := strconv.Atoi(strings.Split(sc.DefectArg, ":")[0]); return i }
 func whichLink(sc *Scn) int {
@@ -1419,6 +1526,15 @@ func applyLinkDefects(sc *Scn, w *world, r *lib.Rng) {
 	anyKey := func(m map[string]intoto.HashObj) string {
 		ks := lib.SortedKeys(m)
 		return ks[len(ks)-1]
+	}
+	if strings.HasPrefix(sc.Defect, "disagree-extra-product-") {
+		// one of the counted links reports everything the other reports AND one more product (a strict superset)
+		resign(func(l *intoto.Link) { l.Products["zz-extra/backdoor.bin"] = hobj("not reported by the other functionary") })
+		return
+	}
+	if sc.Defect == "extra-disagreeing-link-uppercase-keyid" {
+		resign(func(l *intoto.Link) { l.Products[anyKey(l.Products)] = hobj("something else") })
+		return
 	}
 	switch strings.TrimPrefix(strings.TrimPrefix(sc.Defect, "permissive-"), "threshold1-") {
 	case "required-link-missing":
@@ -1665,6 +1781,29 @@ func applyLayoutDefects(sc *Scn, w *world, r *lib.Rng) {
 		alter(func(pl map[string]interface{}) { pl["expires"] = "2999-01-01T00:00:00Z" })
 	case "alter-readme":
 		alter(func(pl map[string]interface{}) { pl["readme"] = "changed" })
+	case "alter-step-unknown-member":
+		alter(func(pl map[string]interface{}) { firstStep(pl)["approved_by"] = "nobody" })
+	case "alter-step-drop-threshold":
+		alter(func(pl map[string]interface{}) { delete(firstStep(pl), "threshold") })
+	case "alter-inspection-unknown-member":
+		alter(func(pl map[string]interface{}) {
+			if ins, ok := pl["inspect"].([]interface{}); ok && len(ins) > 0 {
+				ins[0].(map[string]interface{})["timeout"] = 5.0
+			} else {
+				firstStep(pl)["approved_by"] = "nobody"
+			}
+		})
+	case "alter-key-unknown-member":
+		alter(func(pl map[string]interface{}) {
+			for _, k := range pl["keys"].(map[string]interface{}) {
+				k.(map[string]interface{})["comment"] = "added after signing"
+				break
+			}
+		})
+	case "alter-dsse-payload-type-case":
+		editJSON(p, func(wr, pl map[string]interface{}) { wr["payloadType"] = "Application/Vnd.In-Toto+JSON" })
+	case "alter-dsse-payload-type-params":
+		editJSON(p, func(wr, pl map[string]interface{}) { wr["payloadType"] = wr["payloadType"].(string) + "; charset=utf-8" })
 	case "alter-threshold":
 		alter(func(pl map[string]interface{}) { firstStep(pl)["threshold"] = 1.0; firstStep(pl)["expected_command"] = []interface{}{"x"} })
 	case "alter-rule":
@@ -2349,6 +2488,9 @@ func coqModelAt(sc *Scn, w *world, params map[string]string, nowNs int64) string
 		}
 		files = append(files, lib.CoqPair(lib.CoqStr(p), lib.CoqStr(sha(c))))
 	}
+	for _, p := range w.unreadable {
+		files = append(files, lib.CoqPair(lib.CoqStr(p), lib.CoqStr("!")))
+	}
 	// command semantics table: inspection command -> effect
 	var cmds []string
 	var collect func(s *Scn)
@@ -2426,6 +2568,11 @@ func main() {
 			for _, wrapper := range []string{"legacy", "dsse"} {
 				wr.Put(forgedSubLinkFirstUse(nil, r.Fork(), work, wrapper))
 			}
+		case "c05":
+			wr.Put(filesChangeBetween(nil, r.Fork(), work, "link-replaced-same-size-same-mtime"))
+		}
+		if focus == "c10" {
+			wr.Put(filesChangeBetween(nil, r.Fork(), work, "sublayout-link-arrives-later"))
 		}
 		for i := 0; i < n; i++ {
 			rr := r.Fork()
@@ -2437,6 +2584,12 @@ func main() {
 				continue
 			}
 			w := materialise(sc, root, rr)
+			if w.loadErr != nil {
+				// the loader refused the altered file: nothing is enforced (oracle-only case, the model starts from loaded metadata)
+				wr.Put(lib.Case{Klass: sc.Klass, Input: lib.MustJSON(sc), Impl: "reject|load-error|", Oracle: "reject|load-error|"})
+				os.RemoveAll(root)
+				continue
+			}
 			if len(sc.History) > 0 {
 				impl := runHistory(sc, w)
 				wr.Put(lib.Case{Klass: sc.Klass, Input: lib.MustJSON(sc), Impl: impl, Oracle: historyOracle(sc, impl), CoqModel: coqHistory(sc, w)})
@@ -2555,6 +2708,11 @@ func main() {
 			return
 		}
 		w := materialise(sc, root, lib.NewRng(1))
+		if w.loadErr != nil {
+			fmt.Println("impl:    reject|load-error|", w.loadErr)
+			fmt.Println("oracle:  reject|load-error|")
+			return
+		}
 		if len(sc.History) > 0 {
 			impl := runHistory(sc, w)
 			fmt.Println("impl:   ", impl)
@@ -2741,6 +2899,126 @@ func verifyTwiceParams(sc *Scn, rr *lib.Rng, work, wrapper string) lib.Case {
 	return lib.Case{Klass: sc.Klass, Input: lib.MustJSON(sc), Impl: impl, Oracle: oracle, CoqModel: "(join [59] " + lib.CoqList(models, "str") + ")"}
 }
 
+// filesChangeBetween: histories in ONE process in which the files on disk change between verifications (the caller's
+// in-memory layout object stays the same).  Every verification must judge what is on disk at that moment.
+//   link-replaced-same-size-same-mtime (c05): two counted links agree -> accepted; one of them is replaced by a validly
+//     signed link of the same functionary that reports another digest - same file size, modification time restored ->
+//     the next verification must reject (the counted links disagree)
+//   sublayout-link-arrives-later (c10): a link inside a sublayout's directory is missing -> rejected, twice; the link
+//     arrives -> accepted, twice
+func filesChangeBetween(sc *Scn, rr *lib.Rng, work, kind string) lib.Case {
+	focus := map[string]string{"link-replaced-same-size-same-mtime": "c05", "sublayout-link-arrives-later": "c10"}[kind]
+	if sc == nil {
+		sc = baseScenario(rr, focus, 0)
+		sc.Entry = "plain"
+		sc.Defect, sc.Klass, sc.Seed = kind, focus+"/"+kind, lib.Seed()
+		switch kind {
+		case "link-replaced-same-size-same-mtime":
+			sc.Wrapper = "legacy"
+			sc.Steps[0].Keys = []string{"ed1", "ed2"} // ed25519 signatures have a fixed length
+			sc.Steps[0].Signers = []string{"ed1", "ed2"}
+			sc.Steps[0].Threshold = 2
+		case "sublayout-link-arrives-later":
+			i := rr.Intn(len(sc.Steps))
+			st := &sc.Steps[i]
+			sub := baseScenario(rr, focus, 1)
+			sub.Insps = []InspSpec{{Name: "subinsp", Kind: "log"}}
+			sub.Entry = "plain"
+			st.SubSigner = st.Signers[0]
+			sub.Owners = []string{st.SubSigner}
+			st.Sub = sub
+			st.Threshold = len(st.Signers)
+			sc.ExpectLog = append([]string{"subinsp"}, sc.ExpectLog...)
+		}
+	}
+	root := filepath.Join(work, "run-files-change-"+kind)
+	w := materialise(sc, root, rr)
+	lm, err := intoto.LoadMetadata(w.layoutPath)
+	must(err)
+	var impls, models []string
+	viol := ""
+	stage := func(n int, expect string) {
+		scx := *sc
+		scx.Expect = expect
+		if expect == "reject" {
+			scx.ExpectLog = nil
+		}
+		o := runImplOn(&scx, w, lm)
+		cleanInspectionLinks(w)
+		impls = append(impls, o.String())
+		models = append(models, coqModelP(&scx, w, sc.Params))
+		if v := oracleViolations(&scx, o); v != "" && viol == "" {
+			viol = fmt.Sprintf("verification %d of the history (%s): %s", n, kind, v)
+		}
+	}
+	switch kind {
+	case "link-replaced-same-size-same-mtime":
+		stage(1, "accept")
+		st := sc.Steps[0]
+		kp := pk(st.Signers[1])
+		fp := filepath.Join(w.linkDir, linkFile(st.Name, kp.Pub.KeyID))
+		fi, err := os.Stat(fp)
+		must(err)
+		m, err := intoto.LoadMetadata(fp)
+		must(err)
+		l := m.GetPayload().(intoto.Link)
+		ks := lib.SortedKeys(l.Products)
+		k := ks[len(ks)-1]
+		h := intoto.HashObj{}
+		for a, d := range l.Products[k] { // flip one hex digit of every digest: same length, other content
+			c := byte('0')
+			if d[0] == '0' {
+				c = '1'
+			}
+			h[a] = string(c) + d[1:]
+		}
+		l.Products[k] = h
+		m2 := wrap(sc, l)
+		mustSign(m2, kp.Priv)
+		must(m2.Dump(fp))
+		fi2, err := os.Stat(fp)
+		must(err)
+		if fi2.Size() != fi.Size() {
+			panic(fmt.Sprintf("replacement link has another size (%d vs %d)", fi2.Size(), fi.Size()))
+		}
+		must(os.Chtimes(fp, fi.ModTime(), fi.ModTime()))
+		stage(2, "reject")
+		stage(3, "reject")
+	case "sublayout-link-arrives-later":
+		var subDir, lastName string
+		for _, st := range sc.Steps {
+			if st.Sub != nil {
+				subDir = filepath.Join(w.linkDir, fmt.Sprintf(intoto.SublayoutLinkDirFormat, st.Name, pk(st.SubSigner).Pub.KeyID))
+				lastName = st.Sub.Steps[len(st.Sub.Steps)-1].Name
+			}
+		}
+		stash := filepath.Join(root, "not-yet-delivered")
+		os.MkdirAll(stash, 0o755)
+		ents, _ := os.ReadDir(subDir)
+		var moved []string
+		for _, e := range ents {
+			if !e.IsDir() && strings.HasPrefix(e.Name(), lastName+".") && strings.HasSuffix(e.Name(), ".link") {
+				must(os.Rename(filepath.Join(subDir, e.Name()), filepath.Join(stash, e.Name())))
+				moved = append(moved, e.Name())
+			}
+		}
+		stage(1, "reject")
+		stage(2, "reject")
+		for _, n := range moved {
+			must(os.Rename(filepath.Join(stash, n), filepath.Join(subDir, n)))
+		}
+		stage(3, "accept")
+		stage(4, "accept")
+	}
+	impl := strings.Join(impls, ";")
+	oracle := impl
+	if viol != "" {
+		oracle = "VIOLATES: " + viol
+	}
+	os.RemoveAll(root)
+	return lib.Case{Klass: sc.Klass, Input: lib.MustJSON(sc), Impl: impl, Oracle: oracle, CoqModel: "(join [59] " + lib.CoqList(models, "str") + ")"}
+}
+
 // forgedSubLinkFirstUse: inside a sublayout one step is authorised for a dedicated victim key; its only link is forged
 // (signed by an outsider, labelled with the victim's key id). Earlier in the process a key object labelled with the
 // victim's id but holding the outsider's material checked that link (legitimate: a key id is a label). The
@@ -2793,6 +3071,8 @@ func special(sc *Scn, work string) (lib.Case, bool) {
 		return forgedSubLinkFirstUse(sc, rr, work, sc.Wrapper), true
 	case "verify-twice-other-parameters":
 		return verifyTwiceParams(sc, rr, work, sc.Wrapper), true
+	case "link-replaced-same-size-same-mtime", "sublayout-link-arrives-later":
+		return filesChangeBetween(sc, rr, work, sc.Defect), true
 	}
 	return lib.Case{}, false
 }
